@@ -237,6 +237,17 @@ class Crate:
         self.adts = {a["canon"]: a for a in j["adts"]}
         self.consts = j["consts"]
         self.impls = j["impls"]
+        # associated types defined by local trait impls on concrete types: `<X as path::Trait>::Name` denotes that type
+        try:
+            import sym
+            for im in self.impls:
+                tr = im.get("trait")
+                if not tr or "<" in (im.get("self_ty") or "<"):
+                    continue
+                for a in im.get("assoc_tys") or []:
+                    sym.PROJECTIONS[(tr.split("::")[-1], im["self_ty"], a["name"])] = (tr, a["ty"])
+        except ImportError:
+            pass
 
     def find(self, name=None, impl_trait=None, impl_self=None, canon_suffix=None, dk=None, pred=None):
         out = []
